@@ -46,7 +46,9 @@ def bind_reference(sql, params):
 
 INTS = [0, 1, -1, 7, 42, 32767, 32768, -32769, 2**31 - 1, 2**31, -2**31 - 1, 2**63 - 1, -2**63 + 1]
 FLOATS = [0.5, -2.25, 1.0, 1e-7, 123456.789, -0.0, 3.0]
-STRS = ["", "a", "it's", "?", "a?b", "'; DROP TABLE t; --", "ünï✓", "\\", "%_", "x'y'z", "NULL", "?)", "''", "multi\nline"]
+STRS = ["", "a", "it's", "?", "a?b", "'; DROP TABLE t; --", "ünï✓", "\\", "%_", "x'y'z", "NULL", "?)", "''", "multi\nline",
+        # values that differ only in white space next to a line break, or in the kind of line break
+        "a\nb", "a\n b", "a \nb", "a\r\nb", "a\n", "a\n ", "if x:\n    y", "if x:\n  y", " a", "a ", "a  b", "a b", "A"]
 
 TEMPLATES = [
     # (sql, kinds of the parameters, is_query)
@@ -134,6 +136,8 @@ def run_history(vibesql, calls, stats):
             if ea is None: return ("c30.arity", f"call {n} {call.to_json()} has a parameter/placeholder mismatch but succeeded")
         else:
             try:
+                # a fresh cursor per reference statement: the reference must not depend on any per-cursor state
+                cb = B.cursor()
                 cb.execute(ref)
                 if is_query: rb = cb.fetchall()
             except BaseException as e:
